@@ -76,18 +76,17 @@ Theorem C09_sum_mean_float w mp wm l v : (0 < w)%nat ->
   snd (sum_step fops w mp wm (run_sum fops w mp wm l) (v, true)) =
     let q := lastn w (l ++ [v]) in
     if mp <=? window_nn fops q then (if wm then divc fops (window_sum fops q) (window_nn fops q) else window_sum fops q) else null fops.
-Proof. exact (sum_output fops fops_laws fops_sum_closed fops_sub_add_cancel w mp wm l v). Qed.
+Proof. exact (sum_output fops fops_laws fops_cancel w mp wm l v). Qed.
 Print Assumptions C09_sum_mean_float.
 
-Theorem C09_sum_mean_int nullv w mp wm l v : (0 < w)%nat ->
-  let o := zops false nullv in
+(* integers, and (nullable = true) timestamps / timedeltas: no side condition — the kernel never inspects its running
+   sum, so one that passes through the sentinel is harmless *)
+Theorem C09_sum_mean_int nullable nullv w mp wm l v : (0 < w)%nat ->
+  let o := zops nullable nullv in
   snd (sum_step o w mp wm (run_sum o w mp wm l) (v, true)) =
     let q := lastn w (l ++ [v]) in
     if mp <=? window_nn o q then (if wm then divc o (window_sum o q) (window_nn o q) else window_sum o q) else null o.
-Proof.
-  exact (sum_output (zops false nullv) (zops_laws false nullv) (zops_never_null_closed nullv)
-           (fun a b _ _ => zops_sub_add_cancel false nullv a b) w mp wm l v).
-Qed.
+Proof. exact (sum_output (zops nullable nullv) (zops_laws nullable nullv) (zops_cancel nullable nullv) w mp wm l v). Qed.
 Print Assumptions C09_sum_mean_int.
 
 (* ---- THE statement, whole arrays: any number of interleaved groups, any mask, null keys, any window
@@ -97,15 +96,12 @@ Theorem C09_rolling_sum_mean_is_window_float gk (vals : list fl) ng w mp mask wm
   (0 < w)%nat -> length vals = length gk -> wf_mask (length gk) mask -> (forall k, In k gk -> k < Z.of_nat ng) ->
   rolling_sum_or_mean fops gk vals ng w mp mask wm =
   window_spec fops (if wm then RMean else RSum) w (match mp with Some m => m | None => Z.of_nat w end) gk vals mask.
-Proof. exact (rolling_sum_is_spec fops fops_laws fops_sum_closed fops_sub_add_cancel gk vals ng w mp mask wm). Qed.
-Theorem C09_rolling_sum_mean_is_window_int nullv gk (vals : list Z) ng w mp mask wm :
+Proof. exact (rolling_sum_is_spec fops fops_laws fops_cancel gk vals ng w mp mask wm). Qed.
+Theorem C09_rolling_sum_mean_is_window_int nullable nullv gk (vals : list Z) ng w mp mask wm :
   (0 < w)%nat -> length vals = length gk -> wf_mask (length gk) mask -> (forall k, In k gk -> k < Z.of_nat ng) ->
-  rolling_sum_or_mean (zops false nullv) gk vals ng w mp mask wm =
-  window_spec (zops false nullv) (if wm then RMean else RSum) w (match mp with Some m => m | None => Z.of_nat w end) gk vals mask.
-Proof.
-  exact (rolling_sum_is_spec _ (zops_laws false nullv) (zops_never_null_closed nullv)
-           (fun a b _ _ => zops_sub_add_cancel false nullv a b) gk vals ng w mp mask wm).
-Qed.
+  rolling_sum_or_mean (zops nullable nullv) gk vals ng w mp mask wm =
+  window_spec (zops nullable nullv) (if wm then RMean else RSum) w (match mp with Some m => m | None => Z.of_nat w end) gk vals mask.
+Proof. exact (rolling_sum_is_spec _ (zops_laws nullable nullv) (zops_cancel nullable nullv) gk vals ng w mp mask wm). Qed.
 Theorem C09_shift_diff_is_spec {V} (o : ops V) gk vals ng w mask ws :
   (0 < w)%nat -> length vals = length gk -> wf_mask (length gk) mask -> (forall k, In k gk -> k < Z.of_nat ng) ->
   rolling_shift_or_diff o gk vals ng w mask ws = shift_spec o w ws gk vals mask.
